@@ -14,6 +14,11 @@ Case kinds
   tochunks ChunkParser.to_chunks(raw, size) and decode(to_chunks(raw, size))
                                                         vs  `hp tochunks`, `codec rt`
   chunk    chunked stream (+ tail) into a fresh ChunkParser   vs  `hp chunk`
+  seq      2-4 consecutive builder calls in ONE process (okResponse / build_http_response /
+           build_http_request / HttpRequestRejected.response / redirect builders) whose `headers`
+           argument is None, a fresh dict, or ONE dict object reused by the calls of the sequence;
+           every call's output                          vs  `hp mkres` / `hp mkreq` fed with the
+                                                            caller's dict as the previous calls left it
   upd      message parsed, update_body(body, content_type), observable + rebuild
                                                         vs  `codec upd` (gzip output handed to the
                                                             model as the value of `gz body`)
@@ -79,6 +84,9 @@ RULE = ('mkreq/mkres/mkpkt: argument tuples (methods, targets, versions, status 
         'case sizes, leading zeros, extensions, tails (and trailers while D22 is open); distinct by canonical '
         'JSON; non-trivial = inside the property quantifier (see in_quantifier)')
 ASSUMPTIONS = [
+    'the builders write Content-Length / Connection / Content-Type / User-Agent into a non-empty dict handed in by '
+    'the caller (current behaviour); in sequences the model is fed that dict as the previous calls left it, '
+    'mirrored in the harness (_mirror_res / _mirror_req)',
     'gzip.compress is an uninterpreted function of the model; the real output (clock fixed so that it is '
     'reproducible) is handed to the model and gunzip(gzip(x)) == x is checked on every case',
     'h11 0.16 is the independent parser; it is applied only to messages whose method / target / header names / '
@@ -231,6 +239,8 @@ def impl(case):
         return ['ok ' + hx(enc), P.chunk_feed_line([enc])]
     if k == 'chunk':
         return [P.chunk_feed_line([bytes.fromhex(case['stream']) + bytes.fromhex(case['tail'])])]
+    if k == 'seq':
+        return ['ok ' + hx(x) for x in _seq_run(case)]
     if k == 'upd':
         r = _update(case)
         if r[0] != 'ok':
@@ -262,6 +272,8 @@ def model_lines(case):
         return ['hp tochunks %d %s' % (case['size'], raw), 'codec rt %d %s' % (case['size'], raw)]
     if k == 'chunk':
         return ['hp chunk ' + hx(bytes.fromhex(case['stream']) + bytes.fromhex(case['tail']))]
+    if k == 'seq':
+        return [t['line'] for t in _seq_trace(case)]
     if k == 'upd':
         body = payload(case['body'])
         with _FixedClock():
@@ -270,6 +282,195 @@ def model_lines(case):
                                               ' '.join((s or '-') for s in case['segs']))]
     raise ValueError(k)
 
+
+
+# ----------------------------------------------------------------------------------------------
+# sequences of builder calls (state that survives a call: the caller's dict, module-level objects)
+
+CE_KEY, CE_GZIP = b'Content-Encoding', b'gzip'
+
+
+def _seq_headers_arg(call, shared):
+    """the object handed over as `headers`: None, a fresh dict, or the sequence's shared dict"""
+    h = call['h']
+    if h == 'none':
+        return None
+    if h == 'shared':
+        return shared
+    return {bytes.fromhex(k): bytes.fromhex(v) for k, v in h}
+
+
+def _mirror_res(hobj, body, cc, nocl):
+    """What build_http_response / build_http_pkt do to the dict they are given (current behaviour:
+    they write into the caller's dict unless it is None or empty).  Returns (headers on entry,
+    headers sent)."""
+    entry = list(hobj.items()) if hobj else []
+    h = hobj or {}
+    if not any(k.lower() == b'transfer-encoding' for k in h) and not nocl:
+        h[b'Content-Length'] = str(len(body)).encode() if body else b'0'
+    if cc:
+        h[b'Connection'] = b'close'
+    return entry, list(h.items())
+
+
+def _mirror_req(hobj, ct, body, cc, noua):
+    from proxy.common.constants import PROXY_AGENT_HEADER_VALUE
+    entry = list(hobj.items()) if hobj else []
+    h = hobj or {}
+    if ct is not None:
+        h[b'Content-Type'] = ct
+    lows = [k.lower() for k in h]
+    if body and b'transfer-encoding' not in lows:
+        h[b'Content-Length'] = str(len(body)).encode()
+    if b'user-agent' not in lows and not noua:
+        h[b'User-Agent'] = PROXY_AGENT_HEADER_VALUE
+    if cc:
+        h[b'Connection'] = b'close'
+    return entry, list(h.items())
+
+
+def _seq_trace(case):
+    """Per call, computed from the case alone: the model line, and what the specification expects
+    on the wire: {'ty', 'sent': header list, 'wire': payload, 'plain': bytes to recover, 'gz': bool}."""
+    shared = {bytes.fromhex(k): bytes.fromhex(v) for k, v in case['shared']}
+    out = []
+    for call in case['calls']:
+        fn = call['fn']
+        hobj = _seq_headers_arg(call, shared) if 'h' in call else None
+        if fn == 'req':
+            m, u, v, ct = _uh(call['m']), _uh(call['u']), _uh(call['v']), _uh(call['ct'])
+            body = payload(call['body'])
+            entry, sent = _mirror_req(hobj, ct, body, call['cc'], call['noua'])
+            line = 'hp mkreq %s %s %s %s %s %s %d %d' % (hx(m), hx(u), hx(v), hx(ct), _hdr_tok(entry), hx(body),
+                                                      call['cc'], call['noua'])
+            out.append({'line': line, 'ty': 'REQ', 'sent': sent, 'wire': body or b'', 'plain': body or b'',
+                        'gz': False, 'm': m, 'v': v, 'entry': entry, 'nocl': 0})
+            continue
+        gz = False
+        if fn == 'ok':
+            content = payload(call['content'])
+            plain = content or b''
+            body = content
+            if call['compress'] and content and len(content) > call['mcl']:
+                gz = True
+                if not hobj:
+                    hobj = {}
+                hobj.update({CE_KEY: CE_GZIP})
+                with _FixedClock():
+                    body = gzip.compress(content)
+            status, v, reason, cc, nocl = 200, b'HTTP/1.1', b'OK', call['cc'], call['nocl']
+        elif fn == 'res':
+            status, v, reason = call['status'], _uh(call['v']), _uh(call['reason'])
+            body, cc, nocl = payload(call['body']), call['cc'], call['nocl']
+            plain = body or b''
+        elif fn == 'rej':
+            status, v, reason = call['status'], b'HTTP/1.1', _uh(call['reason'])
+            body, cc, nocl = payload(call['body']), 1, 0
+            plain = body or b''
+        else:   # perm / see
+            status = 308 if fn == 'perm' else 303
+            v, reason = b'HTTP/1.1', (b'Permanent Redirect' if fn == 'perm' else b'See Other')
+            hobj = {b'Location': _uh(call['loc']), b'Content-Length': b'0'}
+            body, cc, nocl, plain = None, 1, 0, b''
+        entry, sent = _mirror_res(hobj, body, cc, nocl)
+        line = 'hp mkres %d %s %s %s %s %d %d' % (status, hx(v), hx(reason), _hdr_tok(entry), hx(body), cc, nocl)
+        out.append({'line': line, 'ty': 'RES', 'sent': sent, 'wire': body or b'', 'plain': plain, 'gz': gz,
+                    'v': v, 'code': str(status).encode(), 'reason': reason or None, 'entry': entry, 'nocl': nocl})
+    return out
+
+
+def _seq_run(case):
+    """the real builders, one after another in this process, with real dict objects"""
+    from proxy.common.utils import build_http_request, build_http_response
+    from proxy.http.responses import okResponse, seeOthersResponse, permanentRedirectResponse
+    from proxy.http.exception import HttpRequestRejected
+    shared = {bytes.fromhex(k): bytes.fromhex(v) for k, v in case['shared']}
+    outs = []
+    with _FixedClock():
+        for call in case['calls']:
+            fn = call['fn']
+            hobj = _seq_headers_arg(call, shared) if 'h' in call else None
+            if fn == 'req':
+                r = build_http_request(_uh(call['m']), _uh(call['u']), _uh(call['v']), content_type=_uh(call['ct']),
+                                       headers=hobj, body=payload(call['body']), conn_close=bool(call['cc']),
+                                       no_ua=bool(call['noua']))
+            elif fn == 'ok':
+                kw = {}
+                if call['cc']:
+                    kw['conn_close'] = True
+                if call['nocl']:
+                    kw['no_cl'] = True
+                r = okResponse(content=payload(call['content']), headers=hobj, compress=bool(call['compress']),
+                               min_compression_length=call['mcl'], **kw)
+            elif fn == 'res':
+                r = build_http_response(call['status'], _uh(call['v']), reason=_uh(call['reason']), headers=hobj,
+                                        body=payload(call['body']), conn_close=bool(call['cc']),
+                                        no_cl=bool(call['nocl']))
+            elif fn == 'rej':
+                r = HttpRequestRejected(status_code=call['status'], reason=_uh(call['reason']), headers=hobj,
+                                        body=payload(call['body'])).response(None)
+            elif fn == 'perm':
+                r = permanentRedirectResponse(_uh(call['loc']))
+            else:
+                r = seeOthersResponse(_uh(call['loc']))
+            outs.append(bytes(r))
+    return outs
+
+
+def _seq_call_in_quantifier(t):
+    """Same guard as for single builder calls: the headers handed in carry no framing header that
+    contradicts the body.  (A dict reused by the caller keeps the Content-Length the previous call
+    wrote into it: with no_cl, or for a request without body, that stale value is the caller's
+    framing header and the message is outside the quantifier - it is still compared with the model.)"""
+    if any(k.lower() == b'transfer-encoding' for k, _ in t['entry']):
+        return False
+    n = len(t['wire'])
+    for k, v in t['entry']:
+        if k.lower() != b'content-length':
+            continue
+        overwritten = k == b'Content-Length' and ((t['ty'] == 'RES' and not t['nocl']) or (t['ty'] == 'REQ' and n))
+        if not overwritten and v != str(n).encode():
+            return False
+    return True
+
+
+def _oracle_seq(case):
+    """every output of the sequence, judged on its own by the round-trip property: it parses back to
+    the start line, exactly the headers this call is specified to send, and its body"""
+    outs = _seq_run(case)
+    for i, (raw, t) in enumerate(zip(outs, _seq_trace(case))):
+        tag = 'call-%d-%s: ' % (i + 1, case['calls'][i]['fn'])
+        if not _seq_call_in_quantifier(t):
+            continue
+        k, p = P.feed(t['ty'], [raw])
+        if k != 'ok':
+            return tag + 'own-parser-raises-' + p
+        want = _expected_map(t['sent'])
+        if (p.headers or {}) != want or list((p.headers or {}).keys()) != list(want.keys()):
+            return tag + 'headers-differ-from-what-this-call-asked-for'
+        if t['ty'] == 'REQ':
+            if p.method != t['m'] or p.version != t['v']:
+                return tag + 'start-line-differs'
+        elif (p.version, p.code, p.reason) != (t['v'], t['code'], t['reason']):
+            return tag + 'start-line-differs'
+        framed = _framed(t['sent'])
+        if t['ty'] == 'RES' and not framed and t['wire']:
+            if p.state != 5 or p.buffer is not None:
+                return tag + 'close-delimited-response-misread'
+        elif p.state != 6 or p.buffer is not None:
+            return tag + 'own-parser-not-complete'
+        got = p.body or b''
+        if got != t['wire']:
+            return tag + 'body-differs'
+        if t['gz']:
+            try:
+                if gzip.decompress(got) != t['plain']:
+                    return tag + 'gunzip-of-body-differs'
+            except Exception:
+                return tag + 'body-not-gzip'
+        elif got != t['plain']:
+            return tag + 'body-differs'
+    return None
 
 # ----------------------------------------------------------------------------------------------
 # specification side: grammar predicates, reference decoder, h11
@@ -520,6 +721,8 @@ def in_quantifier(case):
         return True
     if k == 'tochunks':
         return case['size'] > 0
+    if k == 'seq':
+        return True
     if k == 'chunk':
         try:
             tr = ref_decode(bytes.fromhex(case['stream']))[2]
@@ -887,6 +1090,8 @@ def oracle(case):
         return _oracle_chunk(case)
     if k == 'upd':
         return _oracle_upd(case)
+    if k == 'seq':
+        return _oracle_seq(case)
     return None
 
 
@@ -1120,6 +1325,55 @@ def _gen_stream(rng, trailers=False):
     return s
 
 
+SEQ_HDRS = [(b'Server', b'proxy.py'), (b'X-A', b'1'), (b'Cache-Control', b'no-cache'), (b'Content-Type', b'text/html'),
+            (b'Connection', b'keep-alive'), (b'content-length', b'3'), (b'Content-Length', b'7'), (b'x-b', b'')]
+
+
+def _seq_h(rng):
+    m = rng.randrange(6)
+    if m <= 1:
+        return 'none'
+    if m <= 3:
+        return 'shared'
+    return [[k.hex(), v.hex()] for k, v in rng.sample(SEQ_HDRS, rng.randrange(0, 3))]
+
+
+def _seq_content(rng):
+    m = rng.randrange(6)
+    if m == 0:
+        return None
+    if m == 1:
+        return {'hex': ''}
+    if m == 2:
+        return {'hex': G.rbody(rng, rng.randrange(1, 20)).hex()}
+    return {'n': rng.choice([21, 40, 160, 500]), 'a': rng.randrange(8), 'b': rng.randrange(256)}
+
+
+def _gen_seq(rng):
+    shared = [[k.hex(), v.hex()] for k, v in rng.sample(SEQ_HDRS, rng.choice([0, 0, 1, 2]))]
+    calls = []
+    for _ in range(rng.randrange(2, 5)):
+        fn = rng.choice(['ok', 'ok', 'ok', 'ok', 'res', 'res', 'req', 'rej', 'perm', 'see'])
+        if fn == 'ok':
+            calls.append({'fn': 'ok', 'content': _seq_content(rng), 'h': _seq_h(rng),
+                          'compress': int(rng.random() < 0.85), 'mcl': rng.choice([20, 20, 20, 0, 100]),
+                          'cc': int(rng.random() < 0.35), 'nocl': int(rng.random() < 0.3)})
+        elif fn == 'res':
+            calls.append({'fn': 'res', 'status': rng.choice([200, 404, 500, 204]), 'v': b'HTTP/1.1'.hex(),
+                          'reason': rng.choice([None, b'OK'.hex(), b'Not Found'.hex()]), 'h': _seq_h(rng),
+                          'body': _seq_content(rng), 'cc': int(rng.random() < 0.35), 'nocl': int(rng.random() < 0.3)})
+        elif fn == 'req':
+            calls.append({'fn': 'req', 'm': rng.choice([b'GET', b'POST']).hex(), 'u': rng.choice(G.PATHS).hex(),
+                          'v': b'HTTP/1.1'.hex(), 'ct': rng.choice([None, b'text/plain'.hex()]), 'h': _seq_h(rng),
+                          'body': _seq_content(rng), 'cc': int(rng.random() < 0.35), 'noua': int(rng.random() < 0.5)})
+        elif fn == 'rej':
+            calls.append({'fn': 'rej', 'status': rng.choice([400, 403, 418, 502]),
+                          'reason': rng.choice([None, b'Blocked'.hex()]), 'h': _seq_h(rng), 'body': _seq_content(rng)})
+        else:
+            calls.append({'fn': fn, 'loc': rng.choice([b'/new', b'http://example.com/x?y=1']).hex()})
+    return {'kind': 'seq', 'shared': shared, 'calls': calls}
+
+
 def corpus():
     cs = []
     ua = None
@@ -1197,6 +1451,23 @@ def corpus():
             cs.append(_upd_case(ty, [_with_header(m, b'Content-Encoding: br')], b'', b'', True))
     cs.append(_upd_case('RES', [b'HTTP/1.1 200 OK\r\n\r\n'], b'x', b'a/b', True))
     cs.append(_upd_case('REQ', [b'GET / HTTP/1.1\r\nConte'], b'x', b'a/b', False))
+    # sequences: compressed okResponse with conn_close, then default, then no_cl (headers None throughout);
+    # one caller dict reused by three builders; rejected responses sharing their dict
+    big = {'n': 160, 'a': 3, 'b': 65}
+    cs.append({'kind': 'seq', 'shared': [], 'calls': [
+        {'fn': 'ok', 'content': big, 'h': 'none', 'compress': 1, 'mcl': 20, 'cc': 1, 'nocl': 0},
+        {'fn': 'ok', 'content': {'n': 120, 'a': 5, 'b': 66}, 'h': 'none', 'compress': 1, 'mcl': 20, 'cc': 0, 'nocl': 0},
+        {'fn': 'ok', 'content': {'n': 800, 'a': 7, 'b': 1}, 'h': 'none', 'compress': 1, 'mcl': 20, 'cc': 0, 'nocl': 1}]})
+    cs.append({'kind': 'seq', 'shared': [[b'Server'.hex(), b'px'.hex()]], 'calls': [
+        {'fn': 'res', 'status': 200, 'v': b'HTTP/1.1'.hex(), 'reason': b'OK'.hex(), 'h': 'shared', 'body': big, 'cc': 1, 'nocl': 0},
+        {'fn': 'ok', 'content': big, 'h': 'shared', 'compress': 1, 'mcl': 20, 'cc': 0, 'nocl': 0},
+        {'fn': 'req', 'm': b'POST'.hex(), 'u': b'/p'.hex(), 'v': b'HTTP/1.1'.hex(), 'ct': None, 'h': 'shared',
+         'body': {'hex': '6869'}, 'cc': 0, 'noua': 0},
+        {'fn': 'res', 'status': 204, 'v': b'HTTP/1.1'.hex(), 'reason': None, 'h': 'shared', 'body': None, 'cc': 0, 'nocl': 1}]})
+    cs.append({'kind': 'seq', 'shared': [], 'calls': [
+        {'fn': 'rej', 'status': 403, 'reason': b'Blocked'.hex(), 'h': 'shared', 'body': {'hex': '6e6f'}},
+        {'fn': 'perm', 'loc': b'/new'.hex()}, {'fn': 'see', 'loc': b'/new'.hex()},
+        {'fn': 'ok', 'content': {'hex': '6869'}, 'h': 'shared', 'compress': 1, 'mcl': 20, 'cc': 0, 'nocl': 0}]})
     for fid, w in sorted(finding_witnesses().items()):
         if fid in OPEN:
             cs.append(w)
@@ -1244,6 +1515,8 @@ def generate(rng, tier):
             yield _chunk_case(_gen_stream(rng, trailers=True), rng.choice([b'', b'X', b'\r\n']))
     for _ in range(10000 if thorough else 600):
         yield _gen_upd(rng, thorough)
+    for _ in range(8000 if thorough else 700):
+        yield _gen_seq(rng)
 
 
 def neighbours(case):
@@ -1286,6 +1559,9 @@ def describe(case):
         out.append('chunk d22class=%d' % is_d22_class(case))
     elif k == 'upd':
         out.append('upd d23class=%d' % is_d23_class(case))
+    elif k == 'seq':
+        out.append('seq calls=%d shared=%d' % (len(case['calls']), sum(c.get('h') == 'shared' for c in case['calls'])))
+        out.append('seq fns=' + '+'.join(sorted({c['fn'] for c in case['calls']})))
     return out
 
 
